@@ -4,7 +4,7 @@ hook is enabled by its environment guard at import time and stays off in every o
 
 in.json: list of jobs [id, rules, T (type term or null), streaming (bool), chunks (list of int lists: the pieces in which
 the input becomes available; one piece = one-shot)]
-out: one line per job {"id":..,"ev":[flat 8-tuples]}"""
+out: one line per job {"id":..,"ev":[flat 10-tuples]}"""
 import io
 import json
 import os
@@ -21,7 +21,7 @@ from . import universe as U                                      # noqa: E402
 
 TRACE = berdec.TRACE
 assert TRACE is not None, 'hook not active'
-W = 8
+W = 10
 CAP = 10 ** 6
 
 
@@ -58,34 +58,34 @@ def project(events):
         cid = ids.setdefault(e[0], len(ids) + 1)
         k = e[1]
         if k == 'enter':
-            _, _, state, eoo, sp, ts, sfun = e
+            _, _, state, eoo, sp, ts, sfun, pos = e
             frames[cid] = sp
-            out += [1, cid, state, 1 if eoo else 0, spec_kind(sp), len(ts) if ts is not None else 0, 1 if sfun else 0, 0]
+            out += [1, cid, state, 1 if eoo else 0, spec_kind(sp), len(ts) if ts is not None else 0, 1 if sfun else 0, 0, pos, 0]
         elif k == 'eoo':
-            out += [2, cid, 0, 0, 0, 0, 0, 0]
+            out += [2, cid, 0, 0, 0, 0, 0, 0, e[2], 0]
         elif k == 'state':
             state = e[2]
             if state == berdec.stGetValueDecoder:
-                ts, length = e[3], e[4]
+                ts, length, pos = e[3], e[4], e[5]
                 tg = tags_of(ts)
                 frames[(cid, 'tags')] = tg
                 c, kk, n = tg[0] if tg else (0, 0, 0)
-                out += [3, cid, state, c, kk, n, 1 if length == -1 else 0, len(tg)]
+                out += [3, cid, state, c, kk, n, 1 if length == -1 else 0, len(tg), pos, min(length, CAP)]
             elif state == berdec.stDecodeValue:
-                out += [3, cid, state, dec_kind(e[3]), 0, 0, 0, 0]
+                out += [3, cid, state, dec_kind(e[3]), 0, 0, 0, 0, 0, 0]
             else:
-                out += [3, cid, state, 0, 0, 0, 0, 0]
+                out += [3, cid, state, 0, 0, 0, 0, 0, 0, 0]
         elif k == 'spec':
             chosen, conc = e[2], e[3]
             sp = frames.get(cid)
             eq = 2
             if spec_kind(sp) == 1:
                 eq = 1 if [(a, c) for a, b, c in tags_of(sp.tagSet)] == [(a, c) for a, b, c in frames.get((cid, 'tags'), [])] else 0
-            out += [4, cid, 1 if chosen is not None else 0, 1 if conc is not None else 0, eq, 0, 0, 0]
+            out += [4, cid, 1 if chosen is not None else 0, 1 if conc is not None else 0, eq, 0, 0, 0, 0, 0]
         elif k == 'exit':
             v = e[2]
             ok = isinstance(v, base.Asn1Item) and v is not base.noValue
-            out += [5, cid, 1 if ok else 0, 0, 0, 0, 0, 0]
+            out += [5, cid, 1 if ok else 0, 0, 0, 0, 0, 0, e[3], 0]
     return out, len(ids)
 
 
@@ -129,7 +129,7 @@ def run_job(job):
         status = r
     ev, nframes = project(list(TRACE))
     del TRACE[:]
-    ev += [9, 0, status, nframes, len(data), 0, 0, 0]
+    ev += [9, 0, status, nframes, len(data), 0, 0, 0, 0, 0]
     return {'id': jid, 'ev': ev}
 
 
